@@ -21,7 +21,7 @@ def sends_in(ctx, f, variant=None):
 
 
 def ok_returns(f):
-    return [bi for bi, b in enumerate(f.blocks) for s in b["s"] if s["k"] == "assign" and s["p"]["l"] == 0 and not s["p"].get("pr") and s["r"]["k"] == "agg" and s["r"].get("variant") == "Ok"]
+    return [bi for bi, b in enumerate(f.blocks) for s in b["s"] if s["k"] == "assign" and s["p"]["l"] in Q.ret_locals(f) and not s["p"].get("pr") and s["r"]["k"] == "agg" and s["r"].get("variant") == "Ok"]
 
 
 def rule_main_loop(ctx):
